@@ -342,8 +342,8 @@ Definition c15_join_model (case : sx) : option sx :=
 
 (* ---- the property's executable predicate on what the implementation did ----------------------
    only for admissible cases (well-formed bits, time-outs only while busy); it does not use
-   join_do: results, downstream sequence and final field contents are compared with the
-   run decomposition.  (The late observation of the field contents is compared with the model only.) *)
+   join_do: results, downstream sequence, final field contents and the LATE observation of the field
+   contents (what a batching output serialises) are compared with the run decomposition. *)
 Definition jstep_of_sx (s : sx) : option jstep :=
   match s with
   | SL [SZ r; SL ems] =>
@@ -357,6 +357,28 @@ Definition jstep_of_sx (s : sx) : option jstep :=
 Definition sx_of_jout (o : jout) : sx :=
   match o with OJoined i b => SL [SZ 1; SZ i; SB b] | OPassed i => SL [SZ 0; SZ i] end.
 
+(* what the output reads from each event when it serialises it LATER (after the whole case ran): a joined event
+   carries its whole run (spec_down), every other event its own value — the join's buffer must not be shared with
+   an event that already went downstream *)
+Fixpoint find_joined (id : Z) (l : list jout) : option bytes :=
+  match l with
+  | [] => None
+  | OJoined i b :: r => match find_joined id r with
+                        | Some x => Some x
+                        | None => if i =? id then Some b else None
+                        end
+  | OPassed _ :: r => find_joined id r
+  end.
+Definition spec_late (c : jcfg) (evs : list jev) : list sx :=
+  let down := spec_down c evs in
+  flat_map (fun e : jev =>
+              match snd e with
+              | JTimeout => []
+              | JNoField => [SL [SZ 0; SB []; SZ 1]]
+              | JField _ v _ _ =>
+                  [SL [SZ 1; SB (match find_joined (fst e) down with Some b => b | None => v end); SZ 1]]
+              end) evs.
+
 Definition c15_join_pred (case obs : sx) : bool :=
   match jcase_of_sx case with
   | Some (c, evs) =>
@@ -367,7 +389,8 @@ Definition c15_join_pred (case obs : sx) : bool :=
             | Some os =>
                 Nat.eqb (length os) (length evs) &&
                 sx_eqb (SL (map (fun o : jstep => SZ (fst o)) os)) (SL (map SZ (spec_results c evs))) &&
-                sx_eqb (SL (map sx_of_jout (downstream os evs))) (SL (map sx_of_jout (spec_down c evs)))
+                sx_eqb (SL (map sx_of_jout (downstream os evs))) (SL (map sx_of_jout (spec_down c evs))) &&
+                sx_eqb (SL late) (SL (spec_late c evs))
             | None => false
             end
         | _ => false
